@@ -67,6 +67,7 @@ def overlay_path():
         os.path.join(REPO, "v3/lint/zz_verif_hooks.go"): os.path.join(VERIF, "hooks/lint_verif.go"),
         os.path.join(REPO, "v3/util/zz_verif_hooks.go"): os.path.join(VERIF, "hooks/util_verif.go"),
         os.path.join(REPO, "v3/lints/rfc/zz_verif_hooks.go"): os.path.join(VERIF, "hooks/rfc_verif.go"),
+        os.path.join(REPO, "v3/cmd/zlint-gtld-update/zz_verif_hooks.go"): os.path.join(VERIF, "hooks/gtldupdate_verif.go"),
     }}
     s = json.dumps(ov)
     if not os.path.exists(p) or open(p).read() != s:
@@ -114,6 +115,17 @@ def build_cli():
         rc, so, se = sh(["go", "build", "-o", out, "./cmd/zlint"], cwd=os.path.join(REPO, "v3"), env=GOENV, timeout=1500)
         if rc != 0:
             raise BuildBroken("go build of cmd/zlint failed:\n" + se[-4000:])
+    return out
+
+
+def build_gtld_update():
+    """Build the table generator (v3/cmd/zlint-gtld-update) with the verif probe overlaid (hooks/gtldupdate_verif.go)."""
+    out = os.path.join(BUILD, "gtld-update")
+    with Lock("cli"):
+        rc, so, se = sh(["go", "build", "-tags", "verif", "-overlay", overlay_path(), "-o", out, "./cmd/zlint-gtld-update"],
+                        cwd=os.path.join(REPO, "v3"), env=GOENV, timeout=1500)
+        if rc != 0:
+            raise BuildBroken("go build of cmd/zlint-gtld-update (with the verif probe) failed:\n" + se[-4000:])
     return out
 
 
@@ -221,6 +233,15 @@ def run_cases(pid, name, header, case_terms, check_fn, shard=400, timeout=900, w
     res = coqc_many(paths, timeout)
     failing, logs, okfiles = [], [], 0
     for i, (ok, out) in enumerate(res):
+        if not ok and "Cannot infer the implicit parameter" in out:
+            # a shard in which some list position is empty in every case has nothing to infer the element type from:
+            # take the type of the cases from the domain of the check function and try again
+            src = open(paths[i]).read().replace(
+                "Definition cases := [",
+                "Definition cases_ty := ltac:(match type of (%s) with ?T -> _ => exact T end).\nDefinition cases : list cases_ty := [" % check_fn, 1)
+            with open(paths[i], "w") as f:
+                f.write(src)
+            ok, out = coqc(paths[i], timeout=timeout)
         if not ok:
             logs.append((paths[i], out[-3000:]))
             continue
